@@ -12,6 +12,20 @@ PARALLEL = True
 # ------------------------------------------------------------------ translator
 REL = "cryocat/tiltstack.py"
 RELIO = "cryocat/ioutils.py"
+RELM = "cryocat/mdoc.py"
+# helpers on the dose path (item: "guarded only by correspondence"): (Gen name, file, qualified name, documented locals).  Looking them up
+# with src.find also puts them under the framework's binding discipline (bound once, no re-binding, documented decorators).
+HELPERS = [
+    ("tsInit", REL, "TiltStack.__init__", []),
+    ("tsWriteOut", REL, "TiltStack.write_out", ["data_to_write"]),
+    ("tsCorrectOrder", REL, "TiltStack.correct_order", ["return_data"]),
+    ("lineRead", RELIO, "one_value_per_line_read", ["data_df"]),
+    ("mdocInit", RELM, "Mdoc.__init__", []),
+    ("mdocSort", RELM, "Mdoc.sort_by_tilt", []),
+    ("mdocFeature", RELM, "Mdoc.get_image_feature", []),
+]
+# parsers of the .mdoc text: their bodies belong to C17; here they are looked up (binding discipline) and exercised by the mdoc dose sources
+BOUND_ONLY = [(RELM, "Mdoc._read_mdoc"), (RELM, "Mdoc._parse_images")]
 # documented names of the local variables, in the order of their first binding: the translator renames the locals of the
 # CURRENT source to these by position, so that renaming a local variable changes nothing (G5) while any change of structure
 # (operators, constants, order of operations, call keywords, added / removed statements) changes the regenerated text
@@ -51,20 +65,57 @@ def _params(fn):
 
 
 def canonical(fn, doc_names):
-    """copy of the function with its local variables renamed, by order of first binding, to the documented names"""
+    """copy of the function with its local variables renamed, by order of their first BINDING occurrence, to the documented names.
+    A local that is only ever stored and never read is a discard: every such store is renamed to `_` and takes no place in the
+    order (so `_` <-> `unused` and two unrelated `_` are all the same text).  Type annotations are dropped (`x: T = v` becomes
+    `x = v`, a bare declaration `x: T` disappears, argument / return annotations are removed): a type hint is not behaviour (H1).
+    The map documented name -> name in the source is kept in `fn._orig` for the texts of missing anchors."""
     fn = copy.deepcopy(fn)
+
+    class Strip(ast.NodeTransformer):
+        def visit_AnnAssign(self, n):
+            self.generic_visit(n)
+            if n.value is None:
+                return None
+            return ast.copy_location(ast.Assign(targets=[n.target], value=n.value), n)
+
+        def visit_arg(self, n):
+            n.annotation = None
+            return n
+
+        def visit_FunctionDef(self, n):
+            self.generic_visit(n)
+            n.returns = None
+            if not n.body:
+                n.body = [ast.Pass()]
+            return n
+
+    fn = ast.fix_missing_locations(Strip().visit(fn))
     params = set(_params(fn))
-    stores = sorted((n for n in ast.walk(fn) if isinstance(n, ast.Name) and isinstance(n.ctx, (ast.Store, ast.Del))),
-                    key=lambda n: (n.lineno, n.col_offset))
+    names = [n for n in ast.walk(fn) if isinstance(n, ast.Name)]
+    stores = sorted((n for n in names if isinstance(n.ctx, (ast.Store, ast.Del))), key=lambda n: (n.lineno, n.col_offset))
+    loaded = {n.id for n in names if isinstance(n.ctx, ast.Load)}
+    # an augmented assignment reads its target
+    loaded |= {n.target.id for n in ast.walk(fn) if isinstance(n, ast.AugAssign) and isinstance(n.target, ast.Name)}
     order = []
     for n in stores:
-        if n.id not in params and n.id not in order:
+        if n.id not in params and n.id not in order and n.id in loaded:
             order.append(n.id)
     ren = {name: (doc_names[i] if i < len(doc_names) else f"v{i}") for i, name in enumerate(order)}
-    for n in ast.walk(fn):
-        if isinstance(n, ast.Name) and n.id in ren:
+    for n in stores:
+        if n.id not in params and n.id not in loaded:
+            ren[n.id] = "_"
+    for n in names:
+        if n.id in ren:
             n.id = ren[n.id]
+    fn._orig = {v: k for k, v in ren.items() if v != "_"}
     return fn
+
+
+def _src_name(fn, doc):
+    """the documented local `doc`, quoted together with the identifier it has in the current source"""
+    o = getattr(fn, "_orig", {}).get(doc)
+    return f"`{doc}`" if o in (None, doc) else f"`{doc}` (named `{o}` in the source)"
 
 
 def _is_doc(st):
@@ -116,8 +167,11 @@ def body_dump(stmts, depth=0):
             exc = st.exc.func if isinstance(st.exc, ast.Call) else st.exc   # the message text is not part of the structure
             out.append(pre + "raise " + (ne(exc) if exc is not None else ""))
         elif isinstance(st, (ast.FunctionDef, ast.ClassDef)):
-            out.append(pre + "def " + st.name + "(" + ne(st.args) + ")" if isinstance(st, ast.FunctionDef) else pre + "class " + st.name)
+            out.append(pre + "def " + _sig(st) if isinstance(st, ast.FunctionDef) else pre + "class " + st.name)
             out += body_dump(st.body, depth + 1)
+        elif isinstance(st, ast.AnnAssign):       # `x: T = v` is `x = v`; a bare declaration `x: T` is nothing (H1)
+            if st.value is not None:
+                out.append(pre + ne(st.target) + "=" + ne(st.value))
         else:
             out.append(pre + ast.unparse(st).replace(" ", "").replace("\n", ";"))
     return out
@@ -148,9 +202,12 @@ def _bindings(fn, name):
                     if _root_name(t) == name:
                         out.append(("assign" if isinstance(t, ast.Name) and len(n.targets) == 1 and t is tt else
                                     ("store" if not isinstance(t, ast.Name) else "multi-assign"), n))
-        elif isinstance(n, (ast.AugAssign, ast.AnnAssign)):
+        elif isinstance(n, ast.AnnAssign):        # `a: float = 0.245` is the assignment `a = 0.245` (H1); `a: float` binds nothing
+            if n.value is not None and _root_name(n.target) == name:
+                out.append(("assign" if isinstance(n.target, ast.Name) else "store", n))
+        elif isinstance(n, ast.AugAssign):
             if _root_name(n.target) == name:
-                out.append(("augassign" if isinstance(n, ast.AugAssign) else "annassign", n))
+                out.append(("augassign", n))
         elif isinstance(n, (ast.For, ast.comprehension)):
             for t in targets(n.target):
                 if _root_name(t) == name:
@@ -175,8 +232,9 @@ def _assign_value(fn, target, extra_stores=0):
     plain = [n for k, n in b if k == "assign"]
     other = [k for k, n in b if k != "assign"]
     if len(plain) != 1 or len(other) != extra_stores:
-        raise core.AnchorMissing(f"{fn.name}: expected exactly one assignment to {target}" + (f" and {extra_stores} element store(s)" if extra_stores else "")
-                                 + f", found {len(plain)} assignment(s) and other writes {other}")
+        where = "; ".join(f"line {n.lineno}: {ast.unparse(n)[:70]}" for _, n in b)
+        raise core.AnchorMissing(f"{fn.name}: expected exactly one assignment to {_src_name(fn, target)}" + (f" and {extra_stores} element store(s)" if extra_stores else "")
+                                 + f", found {len(plain)} assignment(s) and other writes {other}" + (f" [{where}]" if where else " [the statement is gone or its target moved]"))
     return plain[0].value
 
 
@@ -200,7 +258,21 @@ def _for_loops(fn):
 
 
 def _sig(fn):
-    return fn.name + "(" + ast.unparse(fn.args).replace(" ", "") + ")"
+    """name(parameters with their DEFAULT values): built from the names and defaults only, annotations are not part of it (H1)"""
+    a = fn.args
+    pos = a.posonlyargs + a.args
+    nreq = len(pos) - len(a.defaults)
+    out = [p.arg for p in pos[:nreq]] + [f"{p.arg}={core.norm_expr(d)}" for p, d in zip(pos[nreq:], a.defaults)]
+    if a.posonlyargs:
+        out.insert(len(a.posonlyargs), "/")
+    if a.vararg:
+        out.append("*" + a.vararg.arg)
+    elif a.kwonlyargs:
+        out.append("*")
+    out += [p.arg if d is None else f"{p.arg}={core.norm_expr(d)}" for p, d in zip(a.kwonlyargs, a.kw_defaults)]
+    if a.kwarg:
+        out.append("**" + a.kwarg.arg)
+    return fn.name + "(" + ",".join(out) + ")"
 
 
 def translate(src):
@@ -296,6 +368,13 @@ def translate(src):
         return t
 
     dl = src.anchor("ioutils.total_dose_load:array-passthrough", dose_passthrough)
+    helpers = {}
+    for gname, rel, qn, locs in HELPERS:
+        sig = src.anchor(f"{qn}:signature", lambda rel=rel, qn=qn: _sig(src.find(rel, qn)))
+        body = src.anchor(f"{qn}:whole-body", lambda rel=rel, qn=qn, locs=locs: body_dump(canonical(src.find(rel, qn), locs).body))
+        helpers[gname] = (sig if isinstance(sig, str) else "<missing>", body if isinstance(body, list) else ["<missing>"])
+    for rel, qn in BOUND_ONLY:
+        src.anchor(f"{qn}:defined", lambda rel=rel, qn=qn: src.find(rel, qn).name)
 
     def frac(v, d):
         v = v if v is not None else d
@@ -317,18 +396,26 @@ def translate(src):
         v = bodies.get(k)
         v = v if isinstance(v, list) else ["<missing>"]
         lines.append(f"def {k} : List String := [\n  " + ",\n  ".join(core.lean_str(s) for s in v) + "]")
+    for gname, _, qn, _ in HELPERS:
+        sig, body = helpers[gname]
+        lines.append(f"/-- `{qn}`: signature (names and defaults) and whole normalised body -/")
+        lines.append(f"def {gname}Sig : String := {core.lean_str(sig)}")
+        lines.append(f"def {gname}Body : List String := [\n  " + ",\n  ".join(core.lean_str(x) for x in body) + "]")
     lines.append("end CryoCat.Gen.C16")
     return "\n".join(lines) + "\n"
 
 
 # ------------------------------------------------------------------ documentation constants
 RULE = ("stacks of 1..10 images, width and height drawn independently from 4..64 (even and odd; half of the draws from 4..12, "
-        "30% from 4..24, 20% from 4..64), pixel size 0.5..10 A (uniform, typical values, and the end points), per-image doses on the "
-        "1/8 grid in 0..300 e/A^2 in random order (0 and 300 forced in often; in 15% of the multi-image plain cases an exact 0.0 is forced "
+        "30% from 4..24, 20% from 4..64), pixel size 0.5..10 A (uniform, typical values, and the end points; 12% passed as a python int, 10% as "
+        "numpy.float32), per-image doses in 0..300 e/A^2 in random order, 55% of the cases on the 1/8 grid and 45% DECIMAL numbers with 1..3 places "
+        "(59.1, 120.3, 7.125; from every source kind; compose mode through a float32 source stays on the grid so that d1+d2 is a float32 number), "
+        "in 30% of the cases integral doses are written as integers (`30`: python ints, int64 ndarray, all-integer text/csv/mdoc column) "
+        "(0 and 300 forced in often; in 15% of the multi-image plain cases an exact 0.0 is forced "
         "directly before a non-zero dose), images: random (integers/8 + offset), pure plane waves at a chosen integer frequency incl. Nyquist "
         "and DC offset, impulses, constants. dtype: float64 72%, float32 18%, int16 6%, int8 4% (integer stacks hold integer pixel values). "
-        "Doses reach the code as list / float64 ndarray / float32 ndarray / one-value-per-line text / .csv with CorrectedDose (with and "
-        "without a Removed column and removed rows) / .mdoc with PriorRecordDose+ExposureDose / .mdoc with ExposureDose and DateTime only "
+        "Doses reach the code as list / TUPLE / float64 (or int64) ndarray / float32 ndarray / one-value-per-line text / .csv with CorrectedDose (with and "
+        "without a Removed column and removed rows; row labels 0..n-1, with gaps, duplicated, or names) / .mdoc with PriorRecordDose+ExposureDose / .mdoc with ExposureDose and DateTime only "
         "(sections written in acquisition order with dose-symmetric tilt angles: the loader re-sorts by tilt angle, dose_i is the dose of "
         "the i-th image in tilt order); 6% of the cases pass 1..3 surplus doses. The stack is an ndarray (xyz or zyx) or, in ~10% of the "
         "cases with >= 2 non-float64 images, the path of an MRC file; ~10% pass output_file and the written file is re-read by the harness's "
@@ -341,23 +428,33 @@ RULE = ("stacks of 1..10 images, width and height drawn independently from 4..64
         "size and other doses, optionally after the harness legitimately rewrote the content (images rolled by one, dose file rewritten, dose "
         "ndarray overwritten); every call is judged alike, and before/after every call the caller-owned stack array (or file bytes), dose "
         "list/ndarray/file and frequency array are compared byte for byte; results of earlier calls are re-compared after later calls. "
+        "dose_i is the dose the filter is GIVEN: for the float32 sources (text file, .csv, float32 ndarray) the float32 rounding of the decimal "
+        "(assumption float32-dose-loading), for .mdoc the float64 sum of the two numbers in the file, else the number itself. "
         "Judgement, per call and image, on floating-point results: the 2-D DFT (numpy) of the output is compared at EVERY coefficient with "
         "gain * DFT(input): |Fo - G Fi| <= 1e-9 G |Fi| + 1e-13 max|Fi| (float64; 1e-4, 1e-5 for float32), and where |Fi| >= 1e-6 max|Fi| and "
         "the gain is above the noise floor the LOG-gain is compared (so strongly attenuated coefficients count as much as weak ones); G from the "
         "formula of the statement (kind spec) and from the Lean driver executing Model/C16 `doseFilter` at Float (kind corr); then mean, zero-dose "
         "identity per pixel, power per coefficient, and over several images linearity / monotonicity / composition. "
         "INTEGER STACKS: when the output is of integer dtype only the relation out = trunc(filter(x)) per pixel is judged (statement's gain: a "
-        "deviation from it is a spec finding; equality with visible truncation is the open known finding C16-K1); the clauses attenuation per "
+        "deviation from it is a spec finding); the driver runs the model of the code as it is (Model/C16 `doseFilterInt` with a Float DFT service) on "
+        "the same pixels, and a result that equals the MODEL's integers and differs visibly from the filtered image is the open known finding C16-K1 "
+        "(witness theorem `int_stack_counterexample`); the clauses attenuation per "
         "frequency, zero-frequency/mean, zero-dose identity, power, linearity, monotonicity and composition are judged on floating-point results "
         "only (float stacks, dose_filter_single_image, and integer stacks whose result comes back as floats). "
         "non-trivial = valid case with >= 2 images, >= 2 distinct doses, some gain < 0.99; distinct = distinct case content")
 ASSUMPTIONS = [
     "numpy.fft.fft2/ifft2 are linear and mutually inverse, fftshift/ifftshift rotate indices by floor(n/2)/ceil(n/2) (probed on every run: probes fft-roundtrip, fftshift-index)",
-    "a Hermitian-even real multiplier applied to the DFT of a real image gives a real image, so taking `.real` drops rounding noise only (probe even-multiplier-real; hypothesis `IsDFT.even_mult` of the image-level theorems; `dft23_isDFT` shows the exact 2x3 DFT has it)",
+    "a Hermitian-even real multiplier applied to the DFT of a real image gives a real image, so taking `.real` drops rounding noise only (probe even-multiplier-real; field `IsDFT.even_mult` — a THEOREM for the exact complex DFT of every size, `dftN_isDFT`; numpy computing that DFT is the assumption)",
     "IEEE float64 arithmetic of numpy ~ exact real arithmetic: |Fo - G Fi| <= 1e-9 G|Fi| + 1e-13 max|Fi| on float64 stacks (1e-4, 1e-5 on float32 stacks); the largest deviation seen is recorded in the evidence histograms",
     "numpy `0.0 ** -1.665 = inf`, `exp(-d/inf) = 1`: the zero-frequency gain is exactly 1 (the driver evaluates the branch-free source expression at Float next to the model's case split and both are compared: clause qliteral-vs-model)",
     "Lean `Float.exp/pow/sqrt` (C libm) agree with numpy's within 1e-12 relative (checked on every case: model gain vs. the statement's formula evaluated in Python)",
     "numpy casts float -> integer by truncation toward zero (probe int-cast-truncates; used only to recognise the open finding C16-K1)",
+    "float32-dose-loading: doses given as a one-value-per-line text file or a .csv reach the filter in float32 (`one_value_per_line_read(file_path, data_type=np.float32)`, "
+    "`df[...].astype(np.single)`; both anchored: theorems dose_helpers_documented, total_dose_load_body_documented), so dose_i is the float32 rounding of the decimal in the "
+    "file: relative change of the dose <= 2^-24 = 6.0e-8, of a gain <= 6.0e-8 * dose/(2*2.81) <= 3.2e-6 at 300 e/A^2. This is the loader's numeric precision, not a "
+    "violation: the judge evaluates the statement at the dose as loaded (as_loaded / _effective), and a float32 ndarray passed by the caller is treated the same way",
+    "the driver's Float DFT (Drv/C16 `floatDFT`, separable O(HW(H+W)) sums) used to run `doseFilterInt` on integer stacks agrees with numpy.fft to 1e-9 relative "
+    "(checked on every integer case: clause int-model-filter-vs-statement)",
     "the dose of image i when doses come from a file is what ioutils.total_dose_load documents: CorrectedDose of the rows not Removed (.csv), PriorRecordDose+ExposureDose or ExposureDose*(rank by DateTime+1) in tilt-angle order (.mdoc), the lines (.txt); the harness computes these itself from the content it wrote",
 ]
 TRUSTED = ["numpy.fft used by the harness to measure the gain (same library the code under test uses; its linearity/inversion is probed)",
@@ -366,14 +463,15 @@ TRUSTED = ["numpy.fft used by the harness to measure the gain (same library the 
 LEVEL_TEXT = ("Lean 4 theorems about an executable polymorphic model of dose_filter / dose_filter_single_image, instantiated at the reals with "
               "Real.exp, Real.rpow, Real.sqrt: the multiplier on every raw DFT coefficient is exp(-d/(2(0.245 f^-1.665 + 2.81))) with f the physical "
               "frequency of that coefficient (fftshift index arithmetic proved for even and odd sizes), DC gain 1, gain(0)=1, gain(d1)gain(d2)=gain(d1+d2), "
-              "0<gain<=1, antitone in dose, Hermitian-even; and, for any Fourier service satisfying the stated DFT laws (shown satisfiable by the exact 2x3 "
-              "DFT over the reals), the image-level consequences "
+              "0<gain<=1, antitone in dose, Hermitian-even; and, for any Fourier service satisfying the stated DFT laws — PROVED for the exact complex 2-D DFT "
+              "of every image size H, W >= 1 (`dftN_isDFT`), so hypothesis-free there — the image-level consequences "
               "(spectrum multiplied, zero dose = identity, linear, power never increases, more dose attenuates more, d1 then d2 = d1+d2, DC and mean unchanged, "
-              "per-image dose pairing, short dose list rejected). Tied to the source by regenerated constants, signatures, expression skeletons and whole-body "
+              "per-image dose pairing, short dose list rejected); integer stacks modelled as the code is (truncation; zero dose still the identity; witness of the open "
+              "finding C16-K1). Tied to the source by regenerated constants, signatures, expression skeletons and whole-body "
               "dumps (insensitive to renaming of locals) and by a per-frequency "
               "differential run of the real functions against the driver executing the same definitions at Float")
-LEVEL_NOTE = ("trusted: Lean kernel; translator anchors; numpy.fft as the measuring instrument and as the Fourier service (its DFT laws are hypotheses of the "
-              "image-level theorems, probed each run); float64 vs real arithmetic within the stated tolerances")
+LEVEL_NOTE = ("trusted: Lean kernel; translator anchors; numpy.fft as the measuring instrument and as the Fourier service (the DFT laws are theorems for the exact complex DFT; that numpy.fft "
+              "computes it is probed each run); float64 vs real arithmetic within the stated tolerances")
 TECHNIQUE = "Lean 4 proof over the reals (Mathlib exp/rpow/sqrt, index arithmetic by omega) + regenerated constants/signatures/expression skeletons/body dumps + per-frequency differential correspondence incl. cross-call and file I/O streams"
 DESIGN_REF = "DESIGN.md section 4, C16"
 
@@ -382,6 +480,15 @@ DEFAULTS = dict(output_file=None, input_order="xyz", output_order="xyz")   # doc
 NP_DT = {"f8": np.float64, "f4": np.float32, "i2": np.int16, "i1": np.int8}
 INT_LIM = {"i2": 8000, "i1": 40}
 FILE_SRC = ("txt", "csv", "csv_removed", "mdoc", "mdoc_dt")
+# dose sources through which cryoCAT holds the doses in float32 (ASSUMPTIONS: `float32-dose-loading`): one_value_per_line_read reads
+# with its default data_type=np.float32, the .csv branch casts CorrectedDose with .astype(np.single), and a float32 ndarray simply IS
+# float32.  "dose_i" of the statement is the dose the filter is GIVEN, i.e. the float32 rounding of the decimal in the file.
+F32_SRC = ("txt", "csv", "csv_removed", "ndarray32")
+
+
+def as_loaded(src, d):
+    """the dose the filter is given when the decimal `d` reaches it through source `src`"""
+    return float(np.float32(d)) if src in F32_SRC else float(d)
 
 
 # ------------------------------------------------------------------ generators
@@ -400,15 +507,17 @@ def _px(rng):
     return rng.uniform(0.5, 10.0)
 
 
-def _dose(rng, hi=300.0):
+def _dose(rng, hi=300.0, decimal=False):
+    """a dose in 0..hi: on the dyadic 1/8 grid, or (decimal=True) a decimal with 1..3 places as people write them into dose files"""
     k = rng.random()
     if k < 0.08:
         return 0.0
     if k < 0.14:
         return hi
-    if k < 0.5:
-        return rng.randint(0, int(hi * 8)) / 8.0
-    return rng.randint(0, int(min(hi, 60.0) * 8)) / 8.0
+    top = hi if k < 0.5 else min(hi, 60.0)
+    if decimal:
+        return min(hi, round(rng.uniform(0.0, top), rng.choice([1, 2, 2, 3])))
+    return rng.randint(0, int(top * 8)) / 8.0
 
 
 def _image(rng, W, H):
@@ -466,22 +575,29 @@ def generate(rng, tier, n):
         if tier == "search":
             W, H, N = rng.randint(4, 9), rng.randint(4, 9), min(N, 4)
         hi = 150.0 if mode == "compose" else 300.0
+        dose_src = rng.choice(["list"] * 4 + ["tuple"] * 2 + ["ndarray"] * 4 + ["ndarray32"] * 2 + ["txt"] * 3 + ["csv", "csv", "csv_removed"] + ["mdoc"] * 3 + ["mdoc_dt"] * 2)
+        if api == "single":
+            dose_src = "list"
+        # decimal doses (59.1, 120.3, 7.125 ...) from EVERY source kind; in compose mode through a float32 source the sum d1+d2 must
+        # itself be a float32 number (else "once with d1+d2" is not the same dose as d1 then d2), so those stay on the 1/8 grid
+        dec = rng.random() < 0.45 and not (mode == "compose" and dose_src in F32_SRC)
+        dose_of = lambda r, h=300.0: _dose(r, h, dec)
         if mode == "linear":
             N = 3
-            d = _dose(rng)
+            d = dose_of(rng)
             images = [_image(rng, W, H), _image(rng, W, H),
                       dict(kind="lincomb", alpha=rng.choice([1.0, -1.0, 0.5, 2.0, 3.25]), beta=rng.choice([1.0, -0.5, 4.0, -2.75]))]
             doses = [d, d, d]
         elif mode == "monotone":
             N = max(N, 2)
             images = [_image(rng, W, H)] + [dict(kind="copy") for _ in range(N - 1)]
-            doses = [_dose(rng) for _ in range(N)]
+            doses = [dose_of(rng) for _ in range(N)]
         else:
             images = [_image(rng, W, H) for _ in range(N)]
-            doses = [_dose(rng, hi) for _ in range(N)]
+            doses = [dose_of(rng, hi) for _ in range(N)]
             if N >= 2 and rng.random() < 0.5:  # ascending accumulated dose, then shuffled: "in any order"
-                step = rng.randint(1, 240) / 8.0
-                doses = [min(hi, step * (i + 1)) for i in range(N)]
+                step = round(rng.uniform(0.1, 30.0), 2) if dec else rng.randint(1, 240) / 8.0
+                doses = [min(hi, round(step * (i + 1), 2) if dec else step * (i + 1)) for i in range(N)]
                 if rng.random() < 0.7:
                     rng.shuffle(doses)
             if N >= 2 and mode == "plain" and rng.random() < 0.15:  # an exact zero directly before an exposed image
@@ -494,18 +610,28 @@ def generate(rng, tier, n):
         if dtype in ("i2", "i1") and (api == "single" or mode == "compose"):
             dtype = "f8"
         case = dict(W=W, H=H, px=f2b(_px(rng)), doses=[f2b(d) for d in doses], images=images, mode=mode, api=api, dtype=dtype,
-                    dose_src=rng.choice(["list"] * 5 + ["ndarray"] * 4 + ["ndarray32"] * 2 + ["txt"] * 2 + ["csv", "csv", "csv_removed"] + ["mdoc"] * 3 + ["mdoc_dt"] * 2),
+                    dose_src=dose_src,
                     order_in=rng.choice(["xyz", "xyz", "zyx"]), order_out=rng.choice(["xyz", "xyz", "zyx"]),
                     aux_seed=rng.randrange(1 << 20))
         if mode == "compose":
-            case["doses2"] = [f2b(_dose(rng, 150.0)) for _ in range(N)]
+            case["doses2"] = [f2b(dose_of(rng, 150.0)) for _ in range(N)]
+        # how the numbers are written (H3): integral doses as integers (`30`, not `30.0`: python ints in a list / tuple, an int64 ndarray
+        # when all are integral, an all-integer text / csv / mdoc column), pixel size as python int / numpy float32 / python float
+        if rng.random() < 0.3:
+            case["int_text"] = True
+        k = rng.random()
+        if k < 0.12:
+            case["px"] = f2b(float(rng.choice([1, 2, 3, 4, 5, 8, 10]))); case["px_as"] = "int"
+        elif k < 0.22:
+            case["px"] = f2b(float(np.float32(b2f(case["px"])))); case["px_as"] = "f32"
         if api == "single":
             case["dose_src"] = "list"
         else:
             if case["dose_src"] == "mdoc_dt" and mode in ("linear", "compose"):
                 case["dose_src"] = "mdoc"
             if case["dose_src"] == "mdoc_dt":
-                case["expo"] = [f2b(rng.randint(0 if rng.random() < 0.1 else 1, max(1, int(300 * 8 / N))) / 8.0) for _ in range(N)]
+                case["expo"] = [f2b(round(rng.uniform(0.01, 300.0 / N), rng.choice([1, 2, 3])) if dec and rng.random() < 0.9 else
+                                    rng.randint(0 if rng.random() < 0.1 else 1, max(1, int(300 * 8 / N))) / 8.0) for _ in range(N)]
                 case["doses"] = _mdoc_dt_doses(case["expo"], case["aux_seed"])
             omit = [kw for kw in ("output_file", "input_order", "output_order") if rng.random() < 0.3]
             if "input_order" in omit:
@@ -527,14 +653,16 @@ def generate(rng, tier, n):
                 if dtype in ("i2", "i1"):
                     case["dtype"] = "f8"; case.pop("stack_src", None)
             elif case["dose_src"] not in ("mdoc", "mdoc_dt") and rng.random() < 0.07:
-                case["surplus"] = [f2b(_dose(rng)) for _ in range(rng.randint(1, 3))]
+                case["surplus"] = [f2b(dose_of(rng)) for _ in range(rng.randint(1, 3))]
+            if case["dose_src"] in ("csv", "csv_removed"):     # row labels of the .csv (first column, index_col=0): default, with gaps, duplicated
+                case["csv_index"] = rng.choice(["range"] * 4 + ["gaps", "dup", "text"])
             if not case.get("malformed") and mode != "compose" and rng.random() < 0.25:
                 px2 = _px(rng)
                 while abs(px2 - b2f(case["px"])) < 0.05 * b2f(case["px"]):
                     px2 = _px(rng)
                 src1 = case["dose_src"]
                 src2 = ("mdoc" if src1 == "mdoc_dt" else src1) if rng.random() < 0.7 else rng.choice(["list", "ndarray"])
-                case["again"] = dict(px=f2b(px2), doses=[f2b(_dose(rng)) for _ in range(N)], mutate=rng.random() < 0.35, dose_src=src2,
+                case["again"] = dict(px=f2b(px2), doses=[f2b(dose_of(rng)) for _ in range(N)], mutate=rng.random() < 0.35, dose_src=src2,
                                      same_dose_obj=rng.random() < 0.6)
         yield case
 
@@ -569,7 +697,7 @@ def shrink(case):
             yield dict(case, again=dict(ag, mutate=False))
         if ag.get("dose_src") != "list":
             yield dict(case, again=dict(ag, dose_src="list"))
-    for k in ("surplus", "out_file", "stack_src"):
+    for k in ("surplus", "out_file", "stack_src", "int_text", "px_as", "csv_index"):
         if case.get(k):
             yield _drop(case, k)
     if case.get("omit"):
@@ -679,55 +807,77 @@ def _stack_array(case, imgs, order):
     return arr.transpose(2, 1, 0).copy() if order == "xyz" else arr
 
 
-def _mdoc_text(doses, kind, seed, expo_bits=None):
+def _num(d, int_text=False):
+    """a dose as text: shortest repr; with int_text an integral value is written as an integer (`30`, as in a hand-written file)"""
+    d = float(d)
+    return str(int(d)) if (int_text and d == int(d)) else repr(d)
+
+
+def _mdoc_parts(doses, seed):
+    """(ExposureDose, PriorRecordDose) of stack image i of a `mdoc` file, in the order the sections are written"""
+    acq, _ = _mdoc_perms(len(doses), seed)
+    r = _random.Random(seed + 7)
+    parts = {}
+    for i in acq:
+        e = r.randint(0, int(doses[i] * 8)) / 8.0
+        parts[i] = (e, doses[i] - e)
+    return parts
+
+
+def _mdoc_text(doses, kind, seed, expo_bits=None, int_text=False):
     """SerialEM-style .mdoc whose sections stand in ACQUISITION order; tilt angles ascend with the stack index"""
     n = len(doses)
     acq, rank = _mdoc_perms(n, seed)
-    r = _random.Random(seed + 7)
+    parts = _mdoc_parts(doses, seed) if kind == "mdoc" else None
     lines = ["PixelSpacing = 1.35", "ImageFile = ts.st", "DataMode = 1", "", "[T = SerialEM: written by the C16 harness]", ""]
     for j, i in enumerate(acq):
         ang = 3.0 * i - 3.0 * (n // 2)
         lines.append(f"[ZValue = {j}]")
         lines.append(f"TiltAngle = {ang!r}")
         if kind == "mdoc":
-            e = r.randint(0, int(doses[i] * 8)) / 8.0
-            lines.append(f"ExposureDose = {e!r}")
-            lines.append(f"PriorRecordDose = {doses[i] - e!r}")
+            e, prior = parts[i]
+            lines.append(f"ExposureDose = {_num(e, int_text)}")
+            lines.append(f"PriorRecordDose = {_num(prior, int_text)}")
             minute = j
         else:
-            lines.append(f"ExposureDose = {b2f(expo_bits[i])!r}")
+            lines.append(f"ExposureDose = {_num(b2f(expo_bits[i]), int_text)}")
             minute = rank[i]
         lines.append(f"DateTime = 2024-02-21 12:{minute:02d}:00")
         lines.append("")
     return "\n".join(lines) + "\n"
 
 
-def _csv_text(doses, removed, seed):
+def _csv_text(doses, removed, seed, int_text=False, index="range"):
     r = _random.Random(seed + 3)
     rows = [(d, False) for d in doses]
     if removed:
         for _ in range(r.randint(1, 3)):
             rows.insert(r.randint(0, len(rows)), (r.randint(0, 2400) / 8.0, True))
     head = ",ZValue,CorrectedDose" + (",Removed" if removed else "")
-    return head + "\n" + "".join(f"{i},{i},{d!r}" + (f",{rm}" if removed else "") + "\n" for i, (d, rm) in enumerate(rows))
+    # the first column becomes the row labels (index_col=0): 0..n-1, labels with gaps (rows were dropped before), duplicated labels, names
+    lab = {"range": lambda i: i, "gaps": lambda i: 3 * i + 2, "dup": lambda i: i // 2, "text": lambda i: f"img_{i:03d}"}[index]
+    return head + "\n" + "".join(f"{lab(i)},{i},{_num(d, int_text)}" + (f",{rm}" if removed else "") + "\n" for i, (d, rm) in enumerate(rows))
 
 
-def _doses_arg(src, doses, td, seed, expo=None, reuse=None):
+def _doses_arg(src, doses, td, seed, expo=None, reuse=None, int_text=False, csv_index="range"):
     """the object handed to dose_filter as total_dose; `reuse`: ndarray of an earlier call to overwrite in place"""
-    if src == "list":
-        return list(doses)
+    if src in ("list", "tuple"):
+        vals = [int(d) if (int_text and d == int(d)) else float(d) for d in doses]
+        return vals if src == "list" else tuple(vals)
     if src in ("ndarray", "ndarray32"):
         dt = np.float64 if src == "ndarray" else np.float32
+        if src == "ndarray" and int_text and doses and all(d == int(d) for d in doses) and reuse is None:
+            return np.array([int(d) for d in doses], dtype=np.int64)     # np.array([10, 20, 30]) is an integer array
         if reuse is not None and isinstance(reuse, np.ndarray) and reuse.dtype == dt and reuse.shape == (len(doses),):
             reuse[...] = doses          # the caller legitimately re-uses its own array
             return reuse
         return np.array(doses, dtype=dt)
     if src == "txt":
-        p, text = os.path.join(td, "dose.txt"), "".join(repr(float(d)) + "\n" for d in doses)
+        p, text = os.path.join(td, "dose.txt"), "".join(_num(d, int_text) + "\n" for d in doses)
     elif src in ("csv", "csv_removed"):
-        p, text = os.path.join(td, "dose.csv"), _csv_text(doses, src == "csv_removed", seed)
+        p, text = os.path.join(td, "dose.csv"), _csv_text(doses, src == "csv_removed", seed, int_text, csv_index)
     elif src in ("mdoc", "mdoc_dt"):
-        p, text = os.path.join(td, "dose.mdoc"), _mdoc_text(doses, src, seed, expo)
+        p, text = os.path.join(td, "dose.mdoc"), _mdoc_text(doses, src, seed, expo, int_text)
     else:
         raise ValueError(src)
     with open(p, "w") as f:     # the same path is rewritten when a second call uses the same kind of file
@@ -741,8 +891,8 @@ def _snap(obj):
         return ("nd", str(obj.dtype), obj.shape, obj.tobytes())
     if isinstance(obj, str):
         return ("file", open(obj, "rb").read())
-    if isinstance(obj, list):
-        return ("list", [repr(x) for x in obj])
+    if isinstance(obj, (list, tuple)):
+        return (type(obj).__name__, [repr(x) for x in obj])
     return ("other", repr(obj))
 
 
@@ -854,19 +1004,42 @@ def _raised_in_cryocat(e):
     return any("/cryocat/" in fr.filename for fr in traceback.extract_tb(e.__traceback__))
 
 
+def _effective(src, doses, seed):
+    """bits of the doses the filter is GIVEN when the numbers `doses` (bits) travel through source `src`: float32 rounding for the
+    float32 sources (F32_SRC), ExposureDose + PriorRecordDose as float64 sum of the two numbers in the file for `mdoc`, else the number"""
+    ds = [b2f(d) for d in doses]
+    if src == "mdoc":
+        parts = _mdoc_parts(ds, seed)
+        return [f2b(parts[i][0] + parts[i][1]) for i in range(len(ds))]
+    return [f2b(as_loaded(src, d)) for d in ds]
+
+
 def plan(case):
-    """the library calls of a case in the order they are made: list of dict(tag, px (bits), doses (bits, as passed incl. surplus), src)"""
+    """the library calls of a case in the order they are made: list of dict(tag, px (bits), doses (bits of the numbers as written / passed,
+    incl. surplus), eff (bits of the doses the filter is given: `_effective`), src, seed (of the dose file))"""
+    seed = case.get("aux_seed", 0)
     d1 = list(case["doses"]) + list(case.get("surplus") or [])
-    calls = [dict(tag="first", px=case["px"], doses=d1, src=case["dose_src"])]
-    if case.get("malformed") or case["api"] == "single":
-        return calls
-    if case["mode"] == "compose":
-        calls.append(dict(tag="second", px=case["px"], doses=list(case["doses2"]), src=case["dose_src"]))
-        calls.append(dict(tag="once", px=case["px"], doses=[f2b(b2f(a) + b2f(b)) for a, b in zip(case["doses"], case["doses2"])], src=case["dose_src"]))
-    if case.get("again"):
-        ag = case["again"]
-        calls.append(dict(tag="again", px=ag["px"], doses=list(ag["doses"]), src=ag["dose_src"]))
+    calls = [dict(tag="first", px=case["px"], doses=d1, src=case["dose_src"], seed=seed)]
+    if not (case.get("malformed") or case["api"] == "single"):
+        if case["mode"] == "compose":
+            calls.append(dict(tag="second", px=case["px"], doses=list(case["doses2"]), src=case["dose_src"], seed=seed + 1))
+            calls.append(dict(tag="once", px=case["px"], doses=[f2b(b2f(a) + b2f(b)) for a, b in zip(case["doses"], case["doses2"])], src=case["dose_src"], seed=seed + 2))
+        if case.get("again"):
+            ag = case["again"]
+            calls.append(dict(tag="again", px=ag["px"], doses=list(ag["doses"]), src=ag["dose_src"], seed=seed + 1))
+    for c in calls:
+        c["eff"] = _effective(c["src"], c["doses"], c["seed"])
     return calls
+
+
+def _px_arg(case, px):
+    """the pixel size as the caller writes it: python float, python int (`2`) or numpy float32 — `float(pixel_size)` must take all"""
+    k = case.get("px_as")
+    if k == "int" and px == int(px):
+        return int(px)
+    if k == "f32" and float(np.float32(px)) == px:
+        return np.float32(px)
+    return px
 
 
 def run_impl(case):
@@ -883,6 +1056,8 @@ def run_impl(case):
             fa_snap = _snap(fa)
             outs, infos, untouched = [], [], True
             for im, d in zip(imgs, [b2f(d) for d in case["doses"]]):
+                if case.get("int_text") and d == int(d):
+                    d = int(d)
                 arr = im.astype(NP_DT[case["dtype"]])
                 keep = _snap(arr)
                 vals, info = _describe(tiltstack.dose_filter_single_image(arr, d, fa))
@@ -905,16 +1080,17 @@ def run_impl(case):
         else:
             stack_arg = _stack_array(case, imgs, order_in)
         first = pl[0]
-        dose_arg = _doses_arg(first["src"], [b2f(d) for d in first["doses"]], td, seed, case.get("expo"))
+        it, ci = bool(case.get("int_text")), case.get("csv_index", "range")
+        dose_arg = _doses_arg(first["src"], [b2f(d) for d in first["doses"]], td, first["seed"], case.get("expo"), int_text=it, csv_index=ci)
         if case.get("malformed"):
             try:
-                _call_stack(tiltstack, case, stack_arg, b2f(case["px"]), dose_arg, order_in, order_out, out_path)
+                _call_stack(tiltstack, case, stack_arg, _px_arg(case, b2f(case["px"])), dose_arg, order_in, order_out, out_path)
             except IndexError as e:
                 if not _raised_in_cryocat(e):
                     raise
                 return dict(reject="IndexError")
             return dict(accepted=True)
-        raw1, ob1 = _call_stack(tiltstack, case, stack_arg, b2f(first["px"]), dose_arg, order_in, order_out, out_path)
+        raw1, ob1 = _call_stack(tiltstack, case, stack_arg, _px_arg(case, b2f(first["px"])), dose_arg, order_in, order_out, out_path)
         ob1["tag"] = "first"
         obs = dict(calls=[ob1])
         snap1 = _snap(raw1) if isinstance(raw1, np.ndarray) else None
@@ -923,11 +1099,11 @@ def run_impl(case):
             if c["tag"] == "second":     # the array the library returned is filtered again, as it came back
                 if not isinstance(raw1, np.ndarray):
                     break
-                darg = _doses_arg(c["src"], doses, td, seed + 1)
-                _, ob = _call_stack(tiltstack, case, raw1, b2f(c["px"]), darg, order_out, order_out, out_path)
+                darg = _doses_arg(c["src"], doses, td, c["seed"], int_text=it, csv_index=ci)
+                _, ob = _call_stack(tiltstack, case, raw1, _px_arg(case, b2f(c["px"])), darg, order_out, order_out, out_path)
             elif c["tag"] == "once":
-                darg = _doses_arg(c["src"], doses, td, seed + 2)
-                _, ob = _call_stack(tiltstack, case, stack_arg, b2f(c["px"]), darg, order_in, order_out, out_path)
+                darg = _doses_arg(c["src"], doses, td, c["seed"], int_text=it, csv_index=ci)
+                _, ob = _call_stack(tiltstack, case, stack_arg, _px_arg(case, b2f(c["px"])), darg, order_in, order_out, out_path)
             else:                        # "again": same caller-owned objects / paths, other pixel size and doses
                 ag = case["again"]
                 if ag.get("mutate"):
@@ -936,7 +1112,7 @@ def run_impl(case):
                         stack_arg[...] = _stack_array(case, new, order_in)     # in place: same object, new content
                     else:
                         _write_mrc(stack_arg, np.stack(new, 0), case["dtype"])  # same path, new content
-                darg = _doses_arg(c["src"], doses, td, seed + 1, reuse=dose_arg if ag.get("same_dose_obj") else None)
+                darg = _doses_arg(c["src"], doses, td, c["seed"], reuse=dose_arg if ag.get("same_dose_obj") else None, int_text=it, csv_index=ci)
                 _, ob = _call_stack(tiltstack, case, stack_arg, b2f(c["px"]), darg, order_in, order_out, out_path)
             ob["tag"] = c["tag"]
             obs["calls"].append(ob)
@@ -948,9 +1124,18 @@ def run_impl(case):
 # ------------------------------------------------------------------ model requests
 def requests(case, obs):
     W, H, n = case["W"], case["H"], len(case["images"])
-    reqs = [dict(op="stack", W=W, H=H, px=c["px"], n=n, doses=c["doses"]) for c in plan(case)]
+    reqs = [dict(op="stack", W=W, H=H, px=c["px"], n=n, doses=c["eff"]) for c in plan(case)]   # the doses the filter is given
     if case["api"] == "single":
         reqs.append(dict(op="arrays", W=W, H=H, px=case["px"], dose=case["doses"][0]))
+    if case["dtype"] in INT_LIM and not case.get("malformed") and "error" not in obs:
+        # integer-typed stack: the driver runs the model of the code AS IT IS (`doseFilterInt`: convert, filter, truncate toward zero;
+        # open finding C16-K1) on the very pixel values, one request per library call, after the "stack" requests
+        inputs = _call_inputs(case, obs)
+        for c in plan(case):
+            if c["tag"] in inputs:
+                imgs, _, _ = inputs[c["tag"]]
+                reqs.append(dict(op="intstack", W=W, H=H, px=c["px"], doses=c["eff"], tag=c["tag"],
+                                 images=[[int(v) for v in np.asarray(im).reshape(-1)] for im in imgs]))
     return reqs
 
 
@@ -1045,8 +1230,13 @@ def _judge_float(tag, i, img, res, G_spec, G_model, dose, px, W, H, tols, out, s
     return Fi, Fo
 
 
-def _judge_int(tag, i, img, res, G_spec, G_model, dose, out, flags):
-    """integer stack, integer result: out = trunc(filter(x)) per pixel (open finding C16-K1), anything else is a violation"""
+def _judge_int(tag, i, img, res, G_spec, G_model, dose, out, flags, model=None):
+    """integer stack, integer result.
+    spec (independent of the model): the result must at least be trunc(filter(x)) per pixel with the STATEMENT's gain — anything else is
+    a violation outside the listed finding.  The listed finding C16-K1 is recognised by the MODEL: `model` = (integers, floats) the driver
+    obtained by running `doseFilterInt` / `doseFilter` of Model/C16 on these pixels; the flag `k1` is raised only when the library's
+    integers are the model's integers (a pixel whose float value lies within `tol` of an integer may fall to either side: there rounding
+    noise of the FFT decides) and differ visibly from the filtered image."""
     tol = 1e-9 * max(1.0, float(np.max(np.abs(img))))
     F = np.fft.fft2(img)
 
@@ -1061,7 +1251,22 @@ def _judge_int(tag, i, img, res, G_spec, G_model, dose, out, flags):
         out.append(dict(kind="spec", clause="int-stack-not-truncated-filter",
                         detail=f"call {tag} image {i} dose {dose}: pixel [y={y},x={x}] is {res[y,x]!r}; the filtered value is {f[y,x]!r} (integer stack: trunc expected)"))
     elif float(np.max(np.abs(res - f))) > tol:
-        flags.setdefault("k1", (tag, i, float(np.max(np.abs(res - f))), float(res.mean() - img.mean())))
+        if model is None:
+            out.append(dict(kind="corr", clause="int-result-vs-model", detail=f"call {tag} image {i}: truncated integer result but no model run to compare with"))
+        else:
+            flags.setdefault("k1", (tag, i, float(np.max(np.abs(res - f))), float(res.mean() - img.mean())))
+    if model is not None:
+        mi, mf = model
+        lo, hi = np.trunc(mf - tol), np.trunc(mf + tol)
+        sure = lo == hi                                  # the model's float is not within tol of an integer: its truncation is decided
+        bad = (sure & (res != mi)) | (res < np.minimum(lo, hi)) | (res > np.maximum(lo, hi))
+        if float(np.max(np.abs(mf - f))) > 1e-9 * max(1.0, float(np.max(np.abs(f)))):
+            y, x = np.unravel_index(int(np.argmax(np.abs(mf - f))), f.shape)
+            out.append(dict(kind="corr", clause="int-model-filter-vs-statement", detail=f"call {tag} image {i}: model's filtered pixel [y={y},x={x}] {mf[y,x]!r}, statement's {f[y,x]!r}"))
+        elif bad.any():
+            y, x = np.unravel_index(int(np.argmax(bad)), bad.shape)
+            out.append(dict(kind="corr", clause="int-result-vs-model", detail=f"call {tag} image {i}: pixel [y={y},x={x}] is {res[y,x]!r}, model doseFilterInt gives {mi[y,x]!r} (float value {mf[y,x]!r})"))
+        flags["int_model_runs"] = flags.get("int_model_runs", 0) + 1
     if G_model is not None and not within(G_model)[0].all():
         out.append(dict(kind="corr", clause="gain-vs-model", detail=f"call {tag} image {i}: integer result is not trunc(model filter)"))
 
@@ -1072,7 +1277,7 @@ def _call_inputs(case, obs):
     n = len(imgs)
     res = {}
     for c in plan(case):
-        doses = [b2f(d) for d in c["doses"]][:n]
+        doses = [b2f(d) for d in c["eff"]][:n]      # dose_i = the dose the filter is given (float32 rounding for the float32 sources)
         if c["tag"] in ("first", "once"):
             res[c["tag"]] = (imgs, doses, b2f(c["px"]))
         elif c["tag"] == "second":
@@ -1113,6 +1318,15 @@ def judge(case, obs, resps):
     inputs = _call_inputs(case, obs)
     obs_calls = {o.get("tag"): o for o in obs.get("calls", [])}
     int_in = case["dtype"] in INT_LIM
+    int_model = {}
+    if int_in:
+        tags = [c["tag"] for c in pl if c["tag"] in inputs]
+        for tg, r in zip(tags, resps[len(pl):]):
+            if isinstance(r, dict) and "out" in r and "filtered" in r:
+                int_model[tg] = (np.array(r["out"], dtype=np.float64).reshape(N, H, W),
+                                 np.array([[b2f(x) for x in im] for im in r["filtered"]], dtype=np.float64).reshape(N, H, W))
+            else:
+                out.append(dict(kind="corr", clause="int-model-missing", detail=f"call {tg}: driver answered {str(r)[:160]}"))
     flags, st_acc = {}, {}
     results, spectra = {}, {}
     for ci, c in enumerate(pl):
@@ -1166,7 +1380,8 @@ def judge(case, obs, resps):
             Gs = _spec_gain(W, H, px, doses[i])
             Gm = gains[i] if i < len(gains) else None
             if int_out:
-                _judge_int(tag, i, imgs[i], res[i], Gs, Gm, doses[i], out, flags)
+                im_ = int_model.get(tag)
+                _judge_int(tag, i, imgs[i], res[i], Gs, Gm, doses[i], out, flags, None if im_ is None else (im_[0][i], im_[1][i]))
             else:
                 Fi, Fo = _judge_float(tag, i, imgs[i], res[i], Gs, Gm, doses[i], px, W, H, tols, out, st_acc)
                 Fis.append(Fi); Fos.append(Fo)
@@ -1287,7 +1502,10 @@ def stats(case, obs, resps):
          "mode": case.get("malformed") or case["mode"], "image_kind": [im["kind"] for im in case["images"]],
          "stack_src": case.get("stack_src", "array"), "output_file": str(bool(case.get("out_file"))),
          "omitted_keywords": sorted(case.get("omit") or []) or ["none"], "surplus_doses": str(len(case.get("surplus") or [])),
-         "calls": [c["tag"] for c in plan(case)]}
+         "calls": [c["tag"] for c in plan(case)],
+         "dose_numbers": ("decimal" if any((b2f(d) * 8) != int(b2f(d) * 8) for d in case["doses"]) else "1/8 grid") + (",integers-as-int" if case.get("int_text") else ""),
+         "doses_changed_by_float32_loading": str(any(c["eff"] != c["doses"] for c in plan(case) if c["src"] in F32_SRC)),
+         "pixel_size_as": case.get("px_as", "float"), "csv_row_labels": case.get("csv_index", "n/a")}
     if case.get("again"):
         ag = case["again"]
         s["again"] = ("rewritten-content" if ag.get("mutate") else "same-content") + "," + ag["dose_src"] + ("(same path)" if ag["dose_src"] in FILE_SRC and ag["dose_src"][:3] == case["dose_src"][:3] else
@@ -1313,7 +1531,7 @@ def sample_view(case):
     v = dict(W=case["W"], H=case["H"], px=b2f(case["px"]), doses=[b2f(d) for d in case["doses"]], images=case["images"][:4],
              mode=case["mode"], api=case["api"], dtype=case["dtype"], dose_src=case["dose_src"],
              order=(case["order_in"], case["order_out"]), malformed=case.get("malformed"))
-    for k in ("omit", "stack_src", "out_file"):
+    for k in ("omit", "stack_src", "out_file", "int_text", "px_as", "csv_index"):
         if case.get(k):
             v[k] = case[k]
     if case.get("surplus"):
@@ -1361,6 +1579,16 @@ def probes(rng):
                            -sum(sg(v * y) * n3(u * i) * x[y, i] for y in range(2) for i in range(3))) for u in range(3)] for v in range(2)])
     dev = float(np.max(np.abs(F - np.fft.fft2(x))))
     out.append(dict(name="dft23-is-numpy-fft2", ok=dev < 1e-12, detail=f"Lemmas/C16_Dft23 `dft23.fft2` formula vs numpy.fft.fft2 on a 2x3 image: max deviation {dev:.3g}"))
+    # the exact complex DFT of Lemmas/C16_DftN (`dftN_fft2_exp`: sum of x[y,i] exp(-2 pi i (y v/H + i u/W))) is what numpy computes, any size
+    dev = 0.0
+    for (H, W) in ((1, 1), (1, 2), (4, 4), (5, 7), (8, 3), (9, 16)):
+        x = r.normal(size=(H, W))
+        ey = np.exp(-2j * np.pi * np.outer(np.arange(H), np.arange(H)) / H)
+        ex = np.exp(-2j * np.pi * np.outer(np.arange(W), np.arange(W)) / W)
+        F = ey @ x @ ex
+        back = (np.conj(ey) @ F @ np.conj(ex)).real / (H * W)
+        dev = max(dev, float(np.max(np.abs(F - np.fft.fft2(x)))), float(np.max(np.abs(back - np.fft.ifft2(F).real))))
+    out.append(dict(name="dftN-is-numpy-fft2", ok=dev < 1e-11, detail=f"Lemmas/C16_DftN `dftN` formulas vs numpy.fft.fft2 / ifft2(.).real on 6 sizes: max deviation {dev:.3g}"))
     t = np.array([-1.7, -0.2, 0.9, 1.7, 2.999999]).astype(np.int16).tolist() == [-1, 0, 0, 1, 2]
     out.append(dict(name="int-cast-truncates", ok=bool(t), detail="float -> int16 conversion truncates toward zero"))
     try:
